@@ -632,11 +632,14 @@ func runPool(t *testing.T, c *choice.Stream, r *Result, opt RunOpt, lean bool) {
 			// I5: idle connections past their idle time / lifetime go away within a period (+1 s)
 			if !lean && !closeEarly && idleTime+period < 30*time.Second {
 				e.Sim.SetFair()
+				// whatever is open now is idle from here on; with MinConns > 0 the pool
+				// replaces what it destroys, so only these have to be gone afterwards
+				before := len(dialer.Dialed)
 				time.Sleep(idleTime + period + time.Second)
 				e.Sim.Yield("main.after-idle-wait")
 				stat := pool.Stat()
-				if minConns == 0 {
-					for _, cn := range dialer.Dialed {
+				{
+					for _, cn := range dialer.Dialed[:before] {
 						if !cn.IsClosed() {
 							r.Violate("I5", "idle-not-destroyed", "connection %d is still open %v after the last use (MaxConnIdleTime %v, HealthCheckPeriod %v); pool has %d idle", cn.ID, idleTime+period+time.Second, idleTime, period, stat.IdleResources())
 							break
